@@ -24,4 +24,38 @@ PROPS = {
     },
 }
 
+STORE_TB = TB_COMMON + [
+    "modelled, not verified: kelindar/bitmap (incl. its AVX2/SIMD kernels) as Array Bool, Go maps/slices, sync.Pool (arbitrary previous content of pooled objects), generics instantiation of the numeric columns, unsafe string aliasing",
+]
+
+PROPS['C11'] = {
+    'title': 'Insert offsets never collide and reused offsets carry no stale data',
+    'modules': ['ColumnVerif.Props.C11'],
+    'runs': [{'mode': 'store'}],
+    'trusted_base': STORE_TB,
+    'assumptions': [
+        "the fill list and the counter are only touched inside sections guarded by the collection lock (next, free, marker loop, recount); histories are arbitrary interleavings of these sections",
+        "insert markers of a commit name offsets already reserved by next() (true for transactions of the collection itself; a replica that replays and inserts locally at the same time is outside)",
+        "second sentence (no stale data) is partial: findings D9, D10, D11 (KNOWN_FINDINGS.json)",
+    ],
+    'level_text': "Lean theorems over the executable fill-list model (the same findFreeIndex/next/free the driver runs): for every fill pattern and length, next() returns an unoccupied offset whenever popcount ≤ count; the invariant is preserved by every atomic fill section, hence in every history/interleaving of inserts, failed inserts, commits and rollbacks no insert receives an occupied offset; freed offsets are available again; Count = popcount at quiescence. Tied to the code by differential histories steering fill patterns across 64-bit word and 16K chunk edges with all capacities.",
+    'technique': 'Lean 4 proof (invariant over all histories of atomic fill sections) + model/implementation correspondence',
+    'design_ref': '§6 C11',
+}
+
+PROPS['C04'] = {
+    'title': 'Filters, iteration and aggregates follow set semantics over live rows',
+    'modules': ['ColumnVerif.Props.C04'],
+    'runs': [{'mode': 'store'}],
+    'trusted_base': STORE_TB,
+    'assumptions': [
+        "numeric predicates, merge functions and float arithmetic are parameters of the model (named families in the driver)",
+        "float Sum/Avg/Min/Max are compared only on exactly representable small integers (SIMD kernels reorder additions)",
+        "Union after a missing name / first-call Union with a missing first name: finding D22 (KNOWN_FINDINGS.json); the theorem states the behaviour of the code and the counterexample",
+    ],
+    'level_text': "Lean theorems over the executable filter model: With/Without/Union/WithUnion/typed value filters/WithValue equal the pointwise set algebra over the selection for every selection length, every number of column chunks and missing names; the chunk loop 0..len>>8 reaches every bit; Count = number of rows Range visits; Range visits exactly the selected offsets, ascending, each once; aggregates fold exactly the selected rows holding a value. Tied to the code by differential filter chains over random layouts (sparse, dense, multi-chunk, reused offsets) and all numeric types.",
+    'technique': 'Lean 4 proof (pointwise semantics of every operator, induction over name lists and chunk loops) + model/implementation correspondence',
+    'design_ref': '§6 C04',
+}
+
 ALL_IDS = ['C%02d' % i for i in range(1, 20)]
